@@ -62,6 +62,7 @@ pub fn action_tag(a: &Action) -> &'static str {
         Action::FlipBit { .. } => "FlipBit",
         Action::Truncate { .. } => "Truncate",
         Action::SendErr { .. } => "SendErr",
+        Action::Rewrite { .. } => "Rewrite",
     }
 }
 
